@@ -436,7 +436,9 @@ def tableKind (recName : Option String) (ctes temps : List String) (n : String) 
   from the enclosing one: a sub-query evaluated for a record (WHERE / select list / LATERAL: `createScope`), a
   query or derived table of its own (`CreateNode`: a new, empty layer of common table expressions on top), a
   block (`CreateChild`).  All three copy `RecursiveTable`, `RecursiveTmpView` and `RecursiveCount` (and the
-  file-path cache and the statement's time stamp); `selectSetForRecursion` stores the records of the step just
+  file-path cache and the statement's time stamp); none copies `recursionRoot`, the mark `selectQuery` puts on the
+  scope of the recursive table's own query - so only THAT query's set operator is run as the recursion, a set
+  operator anywhere below (sub-queries, derived tables, a parenthesised right-hand side) is an ordinary one; `selectSetForRecursion` stores the records of the step just
   computed in `RecursiveTmpView` before the next step is evaluated.  So, inside the recursive member of
   `WITH RECURSIVE r`, the name `r` denotes the records of the previous iteration wherever it is written - a
   second time in the FROM list, in a derived table, in a sub-query evaluated per record at any depth - and no
@@ -449,17 +451,18 @@ structure NameScope where
   ctes : List String               -- inline tables of all node layers, innermost first
   temps : List String              -- temporary tables of all blocks
   limitCount : Nat := 0            -- *RecursiveCount (shared)
+  root : Bool := false             -- recursionRoot: this is the scope of the recursive table's OWN query
 
 inductive ScopeStep
   | record                          -- createScope: one more record on the stack of outer records
   | node (defined : List String)    -- CreateNode, then the WITH clause of that query defines these names
   | child                           -- CreateChild
 
-/-- the derived scope: the three recursion fields are inherited by every constructor -/
+/-- the derived scope: the three recursion fields are inherited by every constructor, `recursionRoot` by none -/
 def NameScope.derive (s : NameScope) : ScopeStep → NameScope
-  | .record => { recName := s.recName, working := s.working, ctes := s.ctes, temps := s.temps, limitCount := s.limitCount }
-  | .node defined => { recName := s.recName, working := s.working, ctes := defined ++ s.ctes, temps := s.temps, limitCount := s.limitCount }
-  | .child => { recName := s.recName, working := s.working, ctes := [], temps := s.temps, limitCount := s.limitCount }
+  | .record => { recName := s.recName, working := s.working, ctes := s.ctes, temps := s.temps, limitCount := s.limitCount, root := false }
+  | .node defined => { recName := s.recName, working := s.working, ctes := defined ++ s.ctes, temps := s.temps, limitCount := s.limitCount, root := false }
+  | .child => { recName := s.recName, working := s.working, ctes := [], temps := s.temps, limitCount := s.limitCount, root := false }
 
 def NameScope.deriveAll (s : NameScope) (steps : List ScopeStep) : NameScope := steps.foldl NameScope.derive s
 
@@ -477,14 +480,31 @@ def NameScope.denotes (s : NameScope) (n : String) : Denotation :=
   | some g, .recursive => .previousIteration g
   | _, k => .object k
 
-/-- the scope of the k-th step of `WITH RECURSIVE r …` over an enclosing scope `s` (`InlineTableMap.Set` derives a
-    node, sets RecursiveTable; `selectSetForRecursion` sets RecursiveTmpView and derives a node for the member) -/
-def NameScope.forStep (s : NameScope) (r : String) (g : List Row) : NameScope :=
-  { (s.derive (.node [])) with recName := some r, working := some g }.derive (.node [])
+/-- the scope of the recursive table's own query `anchor UNION [ALL] member` (`InlineTableMap.Set` derives a node
+    and sets RecursiveTable; `selectQuery` derives the query's node and marks it as the recursion root;
+    `selectSetForRecursion` stores the working view there) -/
+def NameScope.forRecQuery (s : NameScope) (r : String) (working : Option (List Row)) : NameScope :=
+  { ((s.derive (.node [])).derive (.node [])) with recName := some r, working := working, root := true }
 
-/-- the scope of the anchor member: RecursiveTable is set, RecursiveTmpView is not -/
-def NameScope.forAnchor (s : NameScope) (r : String) : NameScope :=
-  { (s.derive (.node [])) with recName := some r, working := none }.derive (.node [])
+/-- the scope of the k-th step: a node derived from the query's scope for the right-hand side -/
+def NameScope.forStep (s : NameScope) (r : String) (g : List Row) : NameScope :=
+  (s.forRecQuery r (some g)).derive (.node [])
+
+/-- the scope of the anchor member (the left-hand side is evaluated in the query's own scope): RecursiveTable is
+    set, RecursiveTmpView is not -/
+def NameScope.forAnchor (s : NameScope) (r : String) : NameScope := s.forRecQuery r none
+
+/-- `selectSet`: a set operator met in this scope is run as the recursion (anything else: an ordinary UNION /
+    EXCEPT / INTERSECT of its two operands, each evaluated in the scope where it stands) -/
+def NameScope.runsAsRecursion (s : NameScope) : Bool := s.recName.isSome && s.root
+
+/-! #### a parenthesised right-hand side `anchor UNION ALL (m1 <op> m2)`
+
+  The right-hand side is a query of its own (a node without the root mark): `m1` and `m2` are both evaluated
+  with the working view of the step, their results combined by the ordinary operator, and THAT is the step. -/
+
+def twoMemberStep (combine : List Row → List Row → List Row) (m1 m2 : List Row → List Row) : List Row → List Row :=
+  fun g => combine (m1 g) (m2 g)
 
 /-! ### conditions with field references by name; resolution errors surface only where the Go code evaluates
 
